@@ -334,6 +334,31 @@ def run(ck: vlib.Check):
     if seen_o:
         ck.known("key=asserts-as-validation-under-O " + known_keys["asserts-as-validation-under-O"])
         ck.extra["invalid_output_under_python_O"] = seen_o[:10]
+    # a section object of the DECODED layer built by hand with a list of the wrong length (a trigger holding 17 conditions),
+    # placed in a rich map: the decoded-level encoders write whatever lists they are given
+    def decoded_wrong_count():
+        import dataclasses
+        from richchk.io.chk.chk_io import ChkIo
+        from richchk.io.richchk.richchk_io import RichChkIo
+        from richchk.model.chk.trig.decoded_trig_section import DecodedTrigSection
+        from richchk.model.richchk.trig.rich_trig_section import RichTrigSection
+        d = ChkIo().decode_chk_binary_data(fixed[0][1])
+        t = next(s_ for s_ in d.decoded_chk_sections if isinstance(s_, DecodedTrigSection))
+        t0 = dataclasses.replace(t.triggers[0], _conditions=list(t.triggers[0].conditions) + [t.triggers[0].conditions[0]])
+        t2 = dataclasses.replace(t, _triggers=[t0] + list(t.triggers[1:]))
+        r = RichChkIo().decode_chk(d)
+        r2 = dataclasses.replace(r, _chk_sections=[t2 if isinstance(s_, RichTrigSection) else s_ for s_ in r.chk_sections])
+        return list(ChkIo().encode_chk_to_bytes(RichChkIo().encode_chk(r2)))
+    r = vlib.impl_result(decoded_wrong_count)
+    ck.evaluations += 1
+    ck.note_case("decoded-trig-17-conditions")
+    if r[0] == 1:
+        problems = validator.validate(bytes(r[1]))
+        if problems and "decoded-section-lists-unchecked" in known_keys:
+            ck.known("key=decoded-section-lists-unchecked " + known_keys["decoded-section-lists-unchecked"])
+        elif problems:
+            ck.violation(f"a hand-built decoded TRIG section with a 17-condition trigger inside a rich map is written: {problems[0]}",
+                         {"kind": "decoded-wrong-count", "problems": problems[:3]}, True)
     ck.extra["degenerations"] = hows
     ck.extra["outcomes"] = outcomes
     if drv_ok:
